@@ -215,7 +215,13 @@ fn run_history(m: &mut ReManager, prog: &Program, noise_n: usize, rng: &mut Rng,
                     return None;
                 }
             }
-            Err(_) => rep.inc("skipped_refdfa_budget"),
+            Err(_) => {
+                rep.inc("skipped_refdfa_budget");
+                if let Some(why) = crate::oracle::re::provably_different(&refs[k], &rs) {
+                    rep.violation("history-language", &format!("history-language:{}", prog.ops[k].name()), format!("[{}] after a history of {} unrelated operations, step {} {} yields {} whose language differs from the construction ({})", label, noise_n, k, prog.ops[k].to_text(), term_text(terms[k]), why), KIND_MGR, &case, seed);
+                    return None;
+                }
+            }
         }
     }
     // answers, not only terms: membership of fixed probe words in every result and its complement, asked in a
@@ -400,6 +406,8 @@ fn check_tiny(prog: &Program, seed: u64, thorough: bool, rep: &mut Report) {
 
 pub fn run(p: &Params, rep: &mut Report) {
     if p.shard == 7 {
+        // one wrapper query that creates more than 2^20 (2^21) terms on the thread-local manager
+        super::ladder::big_wrapper_query(rep, if p.thorough { 1_150_000 } else { 600_000 }, p.seed);
         // operand and class counts beyond 2^10 (and, for one term, beyond 2^16)
         for n in if p.thorough { vec![1100u32, 2100, 4200] } else { vec![1100u32] } {
             super::ladder::wide_union(rep, "C07", n, p.seed);
